@@ -457,6 +457,43 @@ pub fn run(o: &Opts) -> i32 {
         l.histn("history_len", n as u64);
         l.sample(|| J::obj().set("history", objops::sample_history(&st)));
     }));
+    // parsing is a safe operation too: whatever a parser returns as Ok must be a valid object
+    streams.push(Stream::new("parse-hostile-texts", o.n(60_000, 4_000_000), |i, rng: &mut Rng, l: &mut Local| {
+        let t = if i % 8 == 0 {
+            // raw-overlong runs around both capacities, in either block hash
+            let n = *rng.pick(&[32usize, 33, 34, 35, 36, 37, 40, 63, 64, 65, 66, 67, 68, 69, 80, 130]);
+            let run = "A".repeat(n);
+            match rng.below(4) {
+                0 => format!("3:abc:{}", run),
+                1 => format!("3:{}:abc", run),
+                2 => format!("96:xy{}z:{}", run, &run[..n.min(20)]),
+                _ => format!("6:{}:q{}", &run[..n.min(30)], run),
+            }
+            .into_bytes()
+        } else {
+            hashes::gen_text(rng)
+        };
+        crate::for_six_types!(T => {
+            let mut apis: Vec<(&str, Result<Option<T>, String>)> = Vec::new();
+            apis.push(("from_bytes", guard(|| <T as HashLike>::parse_bytes(&t).ok())));
+            apis.push(("from_bytes_with_last_index", guard(|| { let mut idx = 0usize; <T as HashLike>::parse_idx(&t, &mut idx).ok() })));
+            if let Ok(s) = std::str::from_utf8(&t) {
+                apis.push(("from_str", guard(|| <T as HashLike>::parse_str(s).ok())));
+            }
+            for (api, r) in apis {
+                l.eval(1);
+                match r {
+                    Ok(Some(h)) => {
+                        let valid = guard(|| h.valid()).unwrap_or(false);
+                        l.check(valid, "is_valid", || (format!("C11|parse|{}|{}|{}", <T as HashLike>::NAME, api, hex(&t)), format!("{}::{} of {:?} returned an object failing is_valid(): {:?}", <T as HashLike>::NAME, api, crate::json::esc(&t), h)));
+                        l.count("parsed_objects_checked", 1);
+                    }
+                    Ok(None) => {}
+                    Err(p) => l.violation("totality", format!("C11|parse-panic|{}|{}|{}", <T as HashLike>::NAME, api, hex(&t)), format!("{}::{} of {:?} panicked: {}", <T as HashLike>::NAME, api, crate::json::esc(&t), p)),
+                }
+            }
+        });
+    }));
     streams.push(Stream::new("w9-out-of-contract", o.n(200_000, 10_000_000), |_i, rng: &mut Rng, l: &mut Local| {
         let before = l.evals;
         w9_case(rng, l);
@@ -472,7 +509,7 @@ pub fn run(o: &Opts) -> i32 {
         o,
         rr,
         Report {
-            rule: "histories: 3..30 random safe operations (parse, checked constructors, generator, normalize, every conversion into fresh and dirty destinations, dual compress/expand, target init_from) over one live object per type; after every operation the destination must pass is_valid() and full_eq must agree with == against an independently built equal value. w9: every checked constructor with exactly one documented precondition broken must panic or return a valid object. garbage: is_valid/full_eq/Debug on arbitrary bit patterns must not panic. Non-trivial = history with >= 1 dirty-destination operation, or a W9 call; distinct by operation list.".into(),
+            rule: "histories: 3..30 random safe operations (parse, checked constructors, generator, normalize, every conversion into fresh and dirty destinations, dual compress/expand, target init_from) over one live object per type; after every operation the destination must pass is_valid() and full_eq must agree with == against an independently built equal value. w9: every checked constructor with exactly one documented precondition broken must panic or return a valid object. parse-hostile-texts: every object any parser entry point returns for W5 texts and raw-overlong runs must pass is_valid(). garbage: is_valid/full_eq/Debug on arbitrary bit patterns must not panic. Non-trivial = history with >= 1 dirty-destination operation, or a W9 call; distinct by operation list.".into(),
             assumptions: vec!["the harness builds arbitrary-content objects by bit copy; all fields of these types are plain integers, so every bit pattern is a value".into()],
             exhaustive: false,
             min_nontrivial: 1000 * o.scale_pct / 100,
